@@ -50,12 +50,24 @@ func c07(c *an.Ctx) {
 			o.Site(r)
 			// registered for the same table and filter that is queried
 			cc := an.CallOf(r)
-			if !strings.HasSuffix(an.Expr(cc.Args[3]), ".Table.Name") || !strings.HasSuffix(an.Expr(cc.Args[5]), ".Filter") {
-				o.FailAt(r, "the dependency is registered for (%s, %s), not for the table and filter of the query", an.Expr(cc.Args[3]), an.Expr(cc.Args[5]))
+			okTable, okFilter, okTester := false, false, false
+			for _, a := range cc.Args { // whatever the parameter order
+				e := an.Expr(a)
+				switch {
+				case strings.HasSuffix(e, ".Table.Name"):
+					okTable = true
+				case strings.HasSuffix(e, ".Filter"):
+					okFilter = true
+				case strings.Contains(e, "MakeTester("):
+					okTester = true
+				}
+			}
+			if !okTable || !okFilter {
+				o.FailAt(r, "the dependency is not registered for the table and filter of the query (table: %v, filter: %v)", okTable, okFilter)
 			}
 			// tester built from the same filter
-			if !strings.Contains(an.Expr(cc.Args[4]), "MakeTester(") {
-				o.FailAt(r, "the dependency's tester is %s", an.Expr(cc.Args[4]))
+			if !okTester {
+				o.FailAt(r, "the dependency's tester is not the one made for the query's table and filter")
 			}
 		}
 		// queries outside a rerunner / inside a transaction go straight to the database (no caching of uncommitted reads)
@@ -63,10 +75,32 @@ func c07(c *an.Ctx) {
 
 	c.Check("R-POST", "registerDependency always adds to the reactive graph and to the tracker; cleanup removes from the tracker", 3, func(o *an.O) {
 		fn := c.NeedFunc(lsq, "(*dbTracker).registerDependency")
-		adds := an.Calls(fn, an.Mod(lsq, "dbTracker", "add"))
+		// "adds to the tracker": a call of dbTracker.add, or the insert into tracker.resources written out
+		resourceOps := func(f *ssa.Function, kind string) []ssa.Instruction {
+			var out []ssa.Instruction
+			an.Instrs(f, func(i ssa.Instruction) {
+				switch x := i.(type) {
+				case *ssa.MapUpdate:
+					if kind == "insert" && an.IsFieldAccess(x.Map, "dbTracker", "resources") {
+						out = append(out, i)
+					}
+				case *ssa.Call:
+					if b, ok := x.Call.Value.(*ssa.Builtin); ok && b.Name() == "delete" && kind == "delete" && an.IsFieldAccess(x.Call.Args[0], "dbTracker", "resources") {
+						out = append(out, i)
+					}
+					if g := x.Call.StaticCallee(); g != nil && an.RelPkg(g) == lsq && g != f && g.Blocks != nil {
+						if (kind == "insert" && g.Name() == "add") || (kind == "delete" && g.Name() == "remove") {
+							out = append(out, i)
+						}
+					}
+				}
+			})
+			return out
+		}
+		adds := resourceOps(fn, "insert")
 		deps := an.Calls(fn, an.Mod(rx, "", "AddDependency"))
 		if why := an.ExactlyOnce(fn, adds); why != "" {
-			o.Fail(p.Pos(fn.Pos()), "registerDependency: tracker.add: %s (the binlog would never test this query)", why)
+			o.Fail(p.Pos(fn.Pos()), "registerDependency: insert into the tracker: %s (the binlog would never test this query)", why)
 		}
 		if why := an.ExactlyOnce(fn, deps); why != "" {
 			o.Fail(p.Pos(fn.Pos()), "registerDependency: reactive.AddDependency: %s (an invalidation would not reach the computation)", why)
@@ -76,7 +110,13 @@ func c07(c *an.Ctx) {
 		}
 		// the same resource object in both, and in the cleanup
 		if len(adds) == 1 && len(deps) == 1 {
-			r1 := an.CallOf(adds[0]).Args[1]
+			var r1 ssa.Value
+			switch x := adds[0].(type) {
+			case *ssa.MapUpdate:
+				r1 = x.Key
+			default:
+				r1 = an.CallOf(adds[0]).Args[1]
+			}
 			r2 := an.CallOf(deps[0]).Args[1]
 			if !strings.HasPrefix(an.Expr(r2), strings.TrimPrefix(an.Expr(r1), "&")) && !strings.Contains(an.Expr(r2), "resource") {
 				o.FailAt(deps[0], "AddDependency uses %s but the tracker holds %s", an.Expr(r2), an.Expr(r1))
@@ -84,7 +124,7 @@ func c07(c *an.Ctx) {
 		}
 		okCleanup := false
 		for _, call := range an.Calls(fn, an.Mod(rx, "Resource", "Cleanup")) {
-			if cl := an.ClosureArg(an.CallOf(call).Args[1]); cl != nil && len(an.Calls(cl, an.Mod(lsq, "dbTracker", "remove"))) == 1 {
+			if cl := an.ClosureArg(an.CallOf(call).Args[1]); cl != nil && len(resourceOps(cl, "delete")) == 1 {
 				okCleanup = true
 				o.Site(call)
 			}
@@ -92,10 +132,10 @@ func c07(c *an.Ctx) {
 		if !okCleanup {
 			o.Fail(p.Pos(fn.Pos()), "the resource's cleanup no longer removes it from the tracker (leak; every binlog event tests dead queries forever)")
 		}
-		// add/remove/processBinlog under t.mu
-		for _, nm := range []string{"(*dbTracker).add", "(*dbTracker).remove", "(*dbTracker).processBinlog"} {
-			f := c.NeedFunc(lsq, nm)
-			ls := an.ComputeLocks(f, nil)
+		// every access to the resource set happens under t.mu
+		nAcc := 0
+		for _, f := range p.ModuleFuncs(func(rel string) bool { return rel == lsq }) {
+			var ls *an.LockSets
 			an.Instrs(f, func(i ssa.Instruction) {
 				var m ssa.Value
 				switch x := i.(type) {
@@ -103,18 +143,27 @@ func c07(c *an.Ctx) {
 					m = x.Map
 				case *ssa.Range:
 					m = x.X
+				case *ssa.Lookup:
+					m = x.X
 				case *ssa.Call:
-					if b, ok := x.Call.Value.(*ssa.Builtin); ok && b.Name() == "delete" {
+					if b, ok := x.Call.Value.(*ssa.Builtin); ok && (b.Name() == "delete" || b.Name() == "len") && len(x.Call.Args) > 0 {
 						m = x.Call.Args[0]
 					}
 				}
 				if m != nil && an.IsFieldAccess(m, "dbTracker", "resources") {
+					nAcc++
 					o.Site(i)
+					if ls == nil {
+						ls = an.ComputeLocks(f, nil)
+					}
 					if _, held := ls.HeldField(i, "dbTracker", "mu"); !held {
-						o.FailAt(i, "%s touches the resource set without the tracker lock", nm)
+						o.FailAt(i, "%s touches the resource set without the tracker lock", an.QualName(f))
 					}
 				}
 			})
+		}
+		if nAcc < 3 {
+			o.Undecided("found %d accesses to dbTracker.resources (expected insert, delete and the scan)", nAcc)
 		}
 	})
 
@@ -316,7 +365,16 @@ func c07(c *an.Ctx) {
 		}
 		// the consumer hands every received update to the tracker
 		consumer := false
-		for _, cl := range an.WithAnons(fn)[1:] {
+		// the consumer goroutine: a closure of RunPollLoop or a function / method it starts with `go`
+		cands := append([]*ssa.Function(nil), an.WithAnons(fn)[1:]...)
+		an.Instrs(fn, func(i ssa.Instruction) {
+			if g, ok := i.(*ssa.Go); ok {
+				if f := g.Call.StaticCallee(); f != nil && f.Blocks != nil && an.RelPkg(f) == lsq {
+					cands = append(cands, an.WithAnons(f)...)
+				}
+			}
+		})
+		for _, cl := range cands {
 			calls := an.Calls(cl, an.Mod(lsq, "dbTracker", "processBinlog"))
 			if len(calls) == 0 {
 				continue
@@ -700,12 +758,12 @@ func c10(c *an.Ctx) {
 				if lc, isCall := ms.Len.(*ssa.Call); isCall {
 					if bi, isB := lc.Call.Value.(*ssa.Builtin); isB && bi.Name() == "len" {
 						// len(items), or the length of a list built with one entry per item
-						if lc.Call.Args[0] == ssa.Value(fn.Params[1]) {
+						if lc.Call.Args[0] == ssa.Value(itemsParam(fn)) {
 							sized = true
 						} else {
 							al := newAlignment(fn)
 							al.infer(nil)
-							sized = al.aligned(lc.Call.Args[0], fn.Params[1])
+							sized = al.aligned(lc.Call.Args[0], itemsParam(fn))
 						}
 					}
 				}
@@ -761,10 +819,10 @@ func c10(c *an.Ctx) {
 				return
 			}
 			ms, ok := ia.X.(*ssa.MakeSlice)
-			if !ok || (an.Expr(ms.Len) != "len("+fn.Params[1].Name()+")" && an.Expr(ms.Len) != "len("+an.Expr(src.X)+")") {
+			if !ok || (an.Expr(ms.Len) != "len("+itemsParam(fn).Name()+")" && an.Expr(ms.Len) != "len("+an.Expr(src.X)+")") {
 				return
 			}
-			if S := an.LoopSliceOf(ia.Index); S == nil || (S != src.X && S != ia.X && an.Expr(S) != fn.Params[1].Name()) {
+			if S := an.LoopSliceOf(ia.Index); S == nil || (S != src.X && S != ia.X && an.Expr(S) != itemsParam(fn).Name()) {
 				return
 			}
 			if h := an.LoopHeaderOf(i); h != nil && everyIteration(fn, h.Succs[0], i.Block(), h) {
@@ -987,4 +1045,14 @@ func isEmptyStart(v ssa.Value) bool {
 		return true
 	}
 	return false
+}
+
+// itemsParam: the []interface{} parameter of a batch function (closure or method).
+func itemsParam(fn *ssa.Function) *ssa.Parameter {
+	for _, pa := range fn.Params {
+		if pa.Type().String() == "[]interface{}" {
+			return pa
+		}
+	}
+	return fn.Params[len(fn.Params)-1]
 }
